@@ -453,7 +453,10 @@ def run(rep, tier, seed):
             else:
                 # not reproducible in isolation: re-run the preceding cases of the same law in order
                 hist = history_for(kind, args, N)
-                if replay({'kind': 'history', 'law': kind, 'cases': hist}):
+                from ..pool import replay_in_new_interpreter
+                from ..report import jsonable
+                if replay({'kind': 'history', 'law': kind, 'cases': hist}) or replay_in_new_interpreter(
+                        'C18', jsonable({'kind': 'history', 'law': kind, 'cases': hist})):
                     rep.violation({'kind': 'history', 'law': kind, 'cases': hist, 'sig': {'law': kind, 'history_dependent': True}},
                                   f'{kind}{args}: {msg} [only after {len(hist) - 1} earlier evaluations of the same law in the process: '
                                   'the result depends on earlier calls]')
